@@ -2008,7 +2008,7 @@ func c14(c *Ctx) {
 			c14ShortToken+" "+c14OneLine(sg.TM("c14short"))+" :: acc")
 	}
 
-	n := c.N(400, 40000)
+	n := c.N(400, 8000)
 	for i := 0; i < n; i++ {
 		cfg := c14Cfg{bad: 0.01}
 		if i%7 == 3 {
